@@ -39,7 +39,7 @@ ASSUMPTIONS = ['CPython bytearray slicing/assignment defines "the slice semantic
                'buffer item reads/writes use length-1 bytes objects (cffi\'s documented item type) where a bytearray uses ints',
                'slice steps other than None/1, non-bytes-like right-hand sides and read-only destinations are out of scope',
                'memmove sizes and buffer sizes are only generated inside the test-owned memories (C precondition)']
-BUDGET = {'quick': 800, 'thorough': 16000}
+BUDGET = {'quick': 2400, 'thorough': 48000}
 STEPS = {'quick': 40, 'thorough': 60}
 TIME = {'quick': 15, 'thorough': 800}
 CRASHY = True
